@@ -272,6 +272,8 @@ EXTENSIONS = {
     'X05': 'Xcode backend: integrity of the generated project object graph and faithfulness to the build definition (specs/xcode)',
     'X06': 'pkg-config file generator: field contents, visibility, order constraints, uninstalled variant (specs/pkgconfig)',
     'X02': 'command-template substitution of custom_target/generator/configure_file and Makefile-style depfiles (specs/cmdsubst)',
+    'X08': 'find_program() resolution: overrides, [binaries], dirs, source directory, PATH, wrap providers, wrap modes, versions, machines (specs/findprog)',
+    'X09': 'CMake interoperability: generator-expression evaluation, trace-command folding, define/flag helpers (specs/cmakeinterop)',
     'X07': 'option definition files (restricted expression language, option() declaration rules) and deprecated-option translation (specs/optfile)',
 }
 
